@@ -245,6 +245,12 @@ impl MemIO {
     pub fn take_outbox(&self) -> Vec<Out> {
         std::mem::take(&mut self.inner.lock().unwrap().outbox)
     }
+    /// puts items back in front of whatever was emitted since they were taken
+    pub fn put_back_outbox(&self, mut items: Vec<Out>) {
+        let mut g = self.inner.lock().unwrap();
+        items.append(&mut g.outbox);
+        g.outbox = items;
+    }
     pub fn outbox_len(&self) -> usize {
         self.inner.lock().unwrap().outbox.len()
     }
